@@ -1,6 +1,7 @@
 import Driver.GcGuard
 import Driver.Expr
 import Driver.Anno
+import Driver.Hashcons
 /-! Line-protocol driver: one request per line, first token selects the model. -/
 
 def dispatch (line : String) : String :=
@@ -11,6 +12,9 @@ def dispatch (line : String) : String :=
   | "fold" :: args => Driver.Expr.handleFold (Driver.Expr.tokenize (" ".intercalate args))
   | "ahandle" :: args => Driver.Anno.handleReq (Driver.Anno.tokenize (" ".intercalate args))
   | "aunelim" :: args => Driver.Anno.unelimReq (Driver.Anno.tokenize (" ".intercalate args))
+  | "intbytes" :: args => Driver.Hashcons.handleIntBytes args
+  | "pyhash" :: args => Driver.Hashcons.handlePyHash args
+  | "aser" :: args => Driver.Hashcons.handleSer args
   | "meta" :: args => Driver.Expr.handleMeta (Driver.Expr.tokenize (" ".intercalate args))
   | "rules" :: args => Driver.Expr.handleRules (Driver.Expr.tokenize (" ".intercalate args))
   | _ => "bad-op"
